@@ -289,6 +289,19 @@ private:
         return BlockSize;
     }
 
+    // Whether X'BX = I up to a quarter of the working precision (BX holds B * X).
+    // X is updated by the Rayleigh-Ritz coefficients and never orthonormalized again:
+    // with an ill-conditioned basis [X R D] its columns can lose their norm altogether,
+    // and a column that has collapsed to zero has a zero residual
+    bool iterate_is_B_orthonormal(const SparseMatrix& X, const SparseMatrix& BX) const
+    {
+        using std::sqrt;
+        const Matrix G = Matrix(X.transpose() * BX) - Matrix::Identity(m_nev, m_nev);
+        const Scalar tol = sqrt(sqrt(Eigen::NumTraits<Scalar>::epsilon()));
+        // Written so that NaN fails the test
+        return (G.array().abs() <= tol).all();
+    }
+
 public:
     LOBPCGSolver(const SparseMatrix& A, const SparseMatrix X) :
         m_n(A.rows()),
@@ -386,7 +399,7 @@ public:
 
             if (BlockSize == 0)
             {
-                m_info = Eigen::Success;
+                // The verdict is given after the loop
                 break;
             }
 
@@ -527,7 +540,8 @@ public:
         }
         BlockSize = checkConvergence_getBlocksize(m_residuals, tolerance_L2, columnsToDelete);
 
-        if (BlockSize == 0)
+        // The residual test is meaningful only for B-normalized columns
+        if (BlockSize == 0 && iterate_is_B_orthonormal(X, BX))
         {
             m_info = Eigen::Success;
         }
